@@ -959,19 +959,19 @@ func pwOddDestinations(s *Stream, cfg Cfg) {
 		s.Evaluations++
 		s.Nontrivial("flusher-destination")
 	}
-	// (c) 300 writes of 64 KiB (about 19 MiB) with nobody receiving: not one of them waits for a consumer. The bound
+	// (c) 3000 writes of 4 KiB with nobody receiving: not one of them waits for a consumer. The bound
 	// is three orders of magnitude above what the writes take, and far below what any per-write wait would add up to.
 	{
 		sink := &pwSink{room: 1 << 40}
 		pw := ioutil.NewProgressWriter(sink)
-		buf := pwBigBuf(64 << 10)
+		buf := pwBigBuf(4 << 10)
 		t0 := time.Now()
 		slowest := time.Duration(0)
 		var wrote atomic.Int32
 		fin := make(chan struct{})
 		go func() {
 			defer close(fin)
-			for i := 0; i < 300; i++ {
+			for i := 0; i < 3000; i++ {
 				t1 := time.Now()
 				pw.Write(buf)
 				wrote.Add(1)
@@ -983,17 +983,17 @@ func pwOddDestinations(s *Stream, cfg Cfg) {
 		select {
 		case <-fin:
 		case <-time.After(10 * time.Second):
-			s.Violate("write-blocked", fmt.Sprintf("with no consumer, write number %d (64 KiB each) has not returned after 10 s", wrote.Load()+1),
-				map[string]any{"scenario": "300 x Write(64 KiB), no consumer", "writes_completed": wrote.Load()})
+			s.Violate("write-blocked", fmt.Sprintf("with no consumer, write number %d (4 KiB each) has not returned after 10 s", wrote.Load()+1),
+				map[string]any{"scenario": "3000 x Write(4 KiB), no consumer", "writes_completed": wrote.Load()})
 			return
 		}
 		total := time.Since(t0)
 		if total > 2*time.Second {
-			s.Violate("write-blocked", fmt.Sprintf("300 writes of 64 KiB with no consumer took %v (slowest single write %v): writes wait although nobody is receiving", total.Round(time.Millisecond), slowest.Round(time.Millisecond)),
-				map[string]any{"scenario": "300 x Write(64 KiB), no consumer", "total_ms": total.Milliseconds()})
+			s.Violate("write-blocked", fmt.Sprintf("3000 writes of 4 KiB with no consumer took %v (slowest single write %v): writes wait although nobody is receiving", total.Round(time.Millisecond), slowest.Round(time.Millisecond)),
+				map[string]any{"scenario": "3000 x Write(4 KiB), no consumer", "total_ms": total.Milliseconds()})
 		}
-		if pw.Size() != 300*(64<<10) {
-			s.Violate("size-not-sum", fmt.Sprintf("Size() = %d after 300 full writes of 64 KiB", pw.Size()), nil)
+		if pw.Size() != 3000*(4<<10) {
+			s.Violate("size-not-sum", fmt.Sprintf("Size() = %d after 3000 full writes of 4 KiB", pw.Size()), nil)
 		}
 		s.Evaluations++
 		s.Nontrivial("no-consumer-run")
